@@ -101,8 +101,11 @@ enum Act { A_CONNECT,
            // composites (round 6): the connection is reset / closed by the client while it still sits in the listen backlog -
            // the acceptor gets it from accept4() only afterwards
            A_CONNECT_RST,
-           A_CONNECT_CLOSE };
-static const char* kActNames[] = { "connect", "send-first-half", "send-rest", "send-request", "read", "close", "shutdown-wr", "rst", "hold-writes", "release-writes", "tick", "send-first-half+close", "send-request+close", "send-request+shutdown-wr", "send-request+rst", "tick+send-request", "tick+send-rest", "tick+close", "tick+rst", "next-write-fails", "next-read-fails+send-byte", "connect+rst", "connect+close" };
+           A_CONNECT_CLOSE,
+           // parked-response part only: the application answers, from its own thread (not the connection's worker), the
+           // responses it has kept so far - their armed time-outs are disarmed from that thread
+           A_APP_ANSWER };
+static const char* kActNames[] = { "connect", "send-first-half", "send-rest", "send-request", "read", "close", "shutdown-wr", "rst", "hold-writes", "release-writes", "tick", "send-first-half+close", "send-request+close", "send-request+shutdown-wr", "send-request+rst", "tick+send-request", "tick+send-rest", "tick+close", "tick+rst", "next-write-fails", "next-read-fails+send-byte", "connect+rst", "connect+close", "application-answers-the-kept-responses" };
 struct Step
 {
     int8_t act, conn;
@@ -191,6 +194,8 @@ static void gen(History& h, CState c[2], int nconn, int depth, int maxDepth)
     bool any = c[0].st != 0;
     if (any)
         push(A_TICK, -1, [](CState&) {});
+    if (any && gPark && (h.empty() || h.back().act != A_APP_ANSWER))
+        push(A_APP_ANSWER, -1, [](CState&) {});
 }
 
 static std::string hist_str(const History& h)
@@ -350,6 +355,24 @@ static void run_history(const History& h, vr::Ctx& ctx, uint64_t& steps)
             sim::tick(gTickMs);
             after(false);
             break;
+        case A_APP_ANSWER: {
+            bool sent = false;
+            for (auto& pw : gParked)
+            {
+                try
+                {
+                    pw->send(Http::Code::Ok, "late");
+                    sent = true;
+                }
+                catch (const std::exception&)
+                {
+                    // the connection is gone: nothing to answer
+                }
+            }
+            gParked.clear();
+            after(sent);
+            break;
+        }
         case A_TICK_SEND_W:
             sim::tick(gTickMs);
             c->send_bytes(kReqA + kReqB);
